@@ -22,6 +22,23 @@ CHECKS["C03"] = dict(
   text="Design check: every set of <=2 (thorough: also <=3) non-equivalent templates x method assignments x every request path up to depth 3-5 over {a,b,z,empty} - the model of the generated route functions always returns an admissible dispatch. Conformance: a seeded sample of those sets is generated, compiled and served EVERY request path up to depth 4 (thorough 5) x methods, packed under literal prefixes and unpacked at the root under 9 base-path forms, with base-path near misses; which handler ran, not-found, spec route and the reported template are validated by TLC against the Prop layer.",
   note="Reading of DESIGN §11 (non-dominated candidates admissible, variables match any segment). Requests are served in-process with arbitrary URL.Path. Template sets are sampled (seeded), request paths are exhaustive for each sampled set. TLC, the renderer and the reflective driver are trusted.")
 
+PIPE_NOTE = "Observation points are the user call-backs of the generated API (middlewares, authenticators, handlers, NotFound/SpecFile/CORS handlers, ResponseWriter), recorded by a reflective driver that replicates no goag naming rule; TLC, the ASpec renderer and the driver are trusted. Requests are served in-process through API.ServeHTTP."
+CHECKS["C11"] = dict(
+  level="model_checking", design="§4 C11, spec/Security.tla, spec/MC_Pipeline.tla, spec/Trace_Pipeline.tla",
+  technique="TLA+ step model of ServeHTTP + authMiddlewareOr (MC_Pipeline) checked by TLC over every small security configuration; the same configurations generated, compiled and requested with every credential assignment; Auth/Handler/401 events judged by TLC (Trace_Pipeline)",
+  text="Design check: global in {none,[A],[A,B],[C]} x per-operation requirement (9 choices: inherit, [], [A], [B], alternatives, AND, unsupported kinds) for two operations sharing a path item x credentials {valid,invalid,absent}^3 x nil authenticators x middleware stacks - NoMore/NoLess/Only401/NoPanic/MwAround/SingleWrite hold outside the two named deviations (known findings). Conformance: all 324 configurations are generated for 2 (thorough 4) scheme-kind assignments, every operation is requested with all 27 credential assignments (thorough: also with each authenticator nil), and TLC validates that the handler runs iff the operation's own effective requirement is met, with the accepting authenticator's request.",
+  note=PIPE_NOTE + " Reading of DESIGN §11 for AND-requirements and unsupported kinds; two open findings (c11-and-alt, c11-unsupported) are listed in known_findings.txt and attributed by TLA+ selectors in Trace_Pipeline.")
+CHECKS["C16"] = dict(
+  level="model_checking", design="§4 C16, spec/MC_Pipeline.tla, spec/Trace_Pipeline.tla",
+  technique="TLA+ step model of ServeHTTP with middleware stacks checked by TLC (MC_Pipeline: MwAround, SingleWrite); recorded MwEnter/MwLeave/Auth/Handler/NotFound/Cors/Spec events of real generated packages judged by TLC (Trace_Pipeline)",
+  text="Every request of a kitchen-sink spec (public, bearer, apiKey header/query, alternatives, declared OPTIONS, CORS) and of TLC-enumerated router template sets is served under API configurations mw 0..4 x NotFoundHandler x SpecFileHandler x CORSHandler; TLC validates that each middleware is entered and left exactly once in declared order for dispatched operations only, outside the security check, with the operation's template visible, and that not-found, CORS and spec-file requests bypass them.",
+  note=PIPE_NOTE)
+CHECKS["C17"] = dict(
+  level="model_checking", design="§4 C17, spec/Pipeline.tla (CorsMethods, CorsHeaders, Outcomes), spec/Trace_Pipeline.tla",
+  technique="CORS as a synthetic OPTIONS operation in the TLA+ dispatch model (Pipeline.Outcomes); factory arguments recorded from real generated packages judged by TLC (Trace_Pipeline) against CorsMethods/CorsHeaders",
+  text="Path items cycle through all 15 non-empty method subsets of {GET,POST,PUT,OPTIONS} with seeded header parameters (case variants, path/operation level), per-operation security and overlapping templates, under three global requirements, cors flag on/off and CORSHandler set/nil; every path and near miss is sent OPTIONS; TLC checks methods and headers as duplicate-free sets, that declared OPTIONS operations are not shadowed and that a nil handler yields not-found.",
+  note=PIPE_NOTE + " Header names canonicalised by http.CanonicalHeaderKey (trusted).")
+
 NOT_YET = {}
 
 def main():
